@@ -33,11 +33,15 @@ package rng
 //@           (forall k int :: {runeAt(seed, k)} 0 <= k && k <= rangeindex ==>
 //@                (('0' <= runeAt(seed, k) && runeAt(seed, k) <= '9') || ('a' <= runeAt(seed, k) && runeAt(seed, k) <= 'z')))
 //
-// Assumed total for every value (C05: a runner is created without panicking whatever the generator returns).
-// The variant of its first loop needs non-linear facts about division by a symbolic divisor, outside the
-// verifier's linear encoding: trusted, with the bounded stand-in B-seed (/verif/bounded).
+// Total for every value (C05: a runner is created without panicking whatever the generator returns): posValue is the
+// power of 36 that e names, so it never becomes the zero divisor while e >= 0; both loops have variants.
+//@ opaque pure func pow36(e int) int { return e <= 0 ? 1 : 36 * pow36(e - 1) }
 //@ func int64ToSeed(value int64) (res string)
-//@   trusted
+//@   arith checked
+//@   loop 0: invariant "power": e >= 0 && posValue >= 1 && e < posValue && posValue == pow36(e) && value == old(value)
+//@   loop 0: decreases value - posValue
+//@   loop 1: invariant "power": e >= -1 && (e >= 0 ==> posValue >= 1 && posValue == pow36(e)) && (arrayOf(seed) == 0 || fresh(seed))
+//@   loop 1: decreases e + 1
 //
 //@ func NewRNG(seed string) (res *RNG, err error)
 //@   ensures "rng-or-error": (err == nil) == (res != nil) && (err == nil ==> fresh(res) && res.source != nil)
